@@ -34,6 +34,8 @@ def main():
         if ctx.ensure_static():
             ctx.gate()
             mod.run(ctx)
+            if a.tier == 'thorough' and getattr(mod, 'COQCHK', None) and not any(not o['ok'] for o in ctx.obligations):
+                ctx.coqchk(mod.COQCHK)
     except Exception as ex:
         ctx.obligation('harness-internal-error', False, 'harness', traceback.format_exc()[-2000:])
     return ctx.finish()
